@@ -459,7 +459,7 @@ class BaseEMSurvey(ObjectBase, ABC):  # pylint: disable=too-many-public-methods
         for elem in ["receivers", "transmitters", "base_stations"]:
             dependent = getattr(self, elem, None)
             if dependent is not None and dependent is not self:
-                dependent._metadata = values
+                dependent._metadata = deepcopy(values)
                 self.workspace.update_attribute(dependent, "metadata")
 
     @property
